@@ -1,8 +1,7 @@
 """C18 — every built-in parameter set is internally consistent."""
 import props.c03 as c03
 
-USES_GENERATED = True
-USES_PARAMS = True
+GENERATED = ["params"]
 TRUSTED = [
     "translator tools/translate_params.py (regex extraction of the case tables and hex constants after gcc -E; evaluation of the sparse "
     "forms and of the bn_set_2b/bn_set_bit/... constructor language); a construct it does not know is a translation failure",
